@@ -125,6 +125,8 @@ pub assume_specification<T: Ord, A: core::alloc::Allocator> [std::collections::B
         heap_view(old(h)).len() == 0 ==> r is None && heap_view(final(h)) == heap_view(old(h)),
         heap_view(old(h)).len() > 0 ==> r is Some && r->0 == heap_top(old(h)) && heap_max(heap_view(old(h)), r->0)
             && exists|i: int| 0 <= i < heap_view(old(h)).len() && #[trigger] heap_view(old(h))[i] == r->0 && heap_view(final(h)) == heap_view(old(h)).remove(i);
+pub assume_specification<T> [std::collections::BinaryHeap::<T>::new] () -> (r: std::collections::BinaryHeap<T>)
+    ensures heap_view(&r) == Seq::<T>::empty();
 pub assume_specification<T: Ord, A: core::alloc::Allocator> [std::collections::BinaryHeap::<T, A>::push] (h: &mut std::collections::BinaryHeap<T, A>, x: T)
     ensures heap_view(final(h)) == heap_view(old(h)).push(x);
 pub assume_specification<T, A: core::alloc::Allocator> [std::collections::BinaryHeap::<T, A>::peek] (h: &std::collections::BinaryHeap<T, A>) -> (r: Option<&T>)
